@@ -232,6 +232,10 @@ _PYOP = {"Add": operator.add, "Sub": operator.sub, "Mult": operator.mul, "Div": 
 
 
 def binop(eng, op, l, r):
+    if not isinstance(l, Ext):
+        l = _plain_number(l)
+    if not isinstance(r, Ext):
+        r = _plain_number(r)
     if isinstance(l, Ext):
         return l.sym_binop(eng, op, r, False)
     if isinstance(r, Ext):
@@ -331,9 +335,23 @@ def inplace(eng, op, cur, rhs):
     return binop(eng, op, cur, rhs)
 
 
+def _plain_number(v):
+    """an instance of a repository class that derives from int / float (class _DefaultValue(int): pass): in arithmetic it
+    behaves as its numeric payload and the RESULT is a plain number (Python: int-subclass operators return int unless the
+    class overrides them, which is outside the subset)"""
+    from .values import VObj
+    if isinstance(v, VObj) and any(c.name in ("int", "float") for c in v.cls.mro()[1:]):
+        for c in v.cls.mro():
+            if c.node is not None and any(k.startswith("__") and k[2:-2] in ("neg", "pos", "add", "radd", "sub", "rsub", "mul", "rmul", "truediv", "rtruediv", "abs") for k in c.attrs):
+                raise Unsupported("numeric subclass %s overrides an operator" % c.name)
+        return v.fields.get("value", 0)
+    return v
+
+
 def unop(eng, op, v):
     if isinstance(v, Ext):
         return v.sym_unop(eng, op)
+    v = _plain_number(v)
     if op == "USub":
         if is_sym(v):
             return -to_arith(v)
